@@ -68,6 +68,13 @@ def prove_lemmas(timeout_ms):
     return out
 
 
+try:
+    with open(os.path.join(VERIF, "contracts", "task_costs.json")) as _f:
+        TASK_COSTS = json.load(_f)
+except Exception:  # noqa
+    TASK_COSTS = {}
+
+
 def split_complete(eng, fq):
     """requires => (case_1 or ... or case_n) for a contract with a finite split."""
     import z3
@@ -184,6 +191,8 @@ def check_property(pid, a, seed, timeout_ms, t0):
             if first:
                 tasks.append(("lemmas", None, None, timeout_ms))
                 first = False
+            # longest first (costs measured on an earlier run, contracts/task_costs.json; unknown tasks go first)
+            tasks.sort(key=lambda t: -TASK_COSTS.get("%s[%s]" % (t[1], t[2]), 1e9 if t[0] == "verify" else 0))
             pending = []
             for kind, fq, split, res in pool.imap_unordered(_task, tasks):
                 if kind == "error":
@@ -194,6 +203,8 @@ def check_property(pid, a, seed, timeout_ms, t0):
                     split_results[fq] = res
                 else:
                     fun_results.setdefault(fq, []).append(res)
+                    if os.environ.get("VERIF_RECORD_COSTS") == "1":
+                        TASK_COSTS["%s[%s]" % (fq, split)] = res.get("wall_s", 0)
                     for u in res["used_contracts"]:
                         if u not in scheduled and u in eng.contracts:
                             pending.append(u)
@@ -447,6 +458,10 @@ def check_property(pid, a, seed, timeout_ms, t0):
     os.makedirs(os.path.join(VERIF, "evidence"), exist_ok=True)
     with open(os.path.join(VERIF, "evidence", pid + ".json"), "w") as f:
         json.dump(ev, f, indent=1, sort_keys=True)
+
+    if os.environ.get("VERIF_RECORD_COSTS") == "1":      # dev: remember task durations for the scheduling order
+        with open(os.path.join(VERIF, "contracts", "task_costs.json"), "w") as f:
+            json.dump(TASK_COSTS, f, indent=0, sort_keys=True)
 
     # ------------------------------------------------------------ verdict
     print("%s tier=%s: %d obligations, %d discharged, %d refuted, %d unknown; %d functions under contract; "
